@@ -186,6 +186,11 @@ func (o *oracles) checkC03(rep0 reporter) {
 					continue
 				} else if len(parseSet(pools[g.Pool].Sharable)) == 0 {
 					cause = " pool-without-sharable-cpus"
+				} else if len(parseSet(pools[g.Pool].FreeSharable)) == 0 && y.cur.MilliCPU == 0 {
+					// F10: every sharable CPU of the pool is exclusively granted
+					// (by grants of this pool or below); a zero-request container
+					// is still placed here
+					cause = " pool-shared-cpus-all-exclusively-granted"
 				}
 				rep("nonempty-cpuset", "nonempty-cpuset"+cause, "container %s (%s, %d mCPU, pool %s) is CPU-pinned but its allowed CPU set is empty (shared set of its pool: %q)", y.spec.ID, y.pod.spec.QoS, y.cur.MilliCPU, g.Pool, pools[g.Pool].FreeSharable)
 			}
